@@ -691,3 +691,7 @@ DDF = 'atomman/dump/atom_dump/dump.py'
 mutant('C08', 'regress-5052613 scaled unit erased in the returned table', DDF, "            scale.append(prop['prop_name'])\n", "            scale.append(prop['prop_name'])\n            prop['unit'] = None\n", 'TABLE-READ')
 mutant('C07', 'regress-5052613 scaled unit erased in the returned table', DDF, "            scale.append(prop['prop_name'])\n", "            scale.append(prop['prop_name'])\n            prop['unit'] = None\n", 'TABLE')
 benign('C08', 'scaled columns collected first, conversion skips them by name', DDF, "            if prop['unit'] is not None and prop['unit'] != 'scaled':", "            if prop['unit'] is not None and pname not in scale:")
+
+# regressions of the fix: commit 7571392 (System.neighborlist(model=...))
+mutant('C03', 'regress-7571392 system passed on with a saved list', 'atomman/core/System.py', "        elif 'model' not in kwargs:\n            kwargs['system'] = self\n", "        else:\n            kwargs['system'] = self\n", 'NEIGHBORLIST')
+benign('C03', 'system entry point: model branch returns early', 'atomman/core/System.py', "        elif 'model' not in kwargs:\n            kwargs['system'] = self\n        return NeighborList(**kwargs)", "        if 'model' in kwargs:\n            return NeighborList(**kwargs)\n        return NeighborList(system=self, **kwargs)")
